@@ -40,6 +40,7 @@ def required_cells(tier):
     for m in ("point-move", "point-attr", "point-item", "vector-item", "face-move", "segment-item"):
         req["mutate:" + m] = 100 if q else 2000
     req["copy"] = 200
+    req["copy:negation-of-a-polygon-kept"] = 30
     for kk in ("PG", "PH", "S"):
         req["twins:" + kk] = 15 if q else 300
     for rk in ("None", "P", "S", "PG"):
@@ -406,6 +407,19 @@ def judge(case):
         elif step[0] == "c":
             mu.cell("copy")
             i = step[1]
+            if M.kind(pool[i]) == "PG" and len(W.copies) % 2 == 0:
+                # the negation of a polygon is a polygon of its own (it owns its data): kept like a copy, it must not
+                # follow the original when that moves on
+                mu.cell("copy:negation-of-a-polygon-kept")
+                try:
+                    ng = -pool[i]
+                except Exception as e:
+                    mu.fail("negation-raises:PG", "-polygon raised %r" % e)
+                    continue
+                W.copies.append(ng)
+                W.copy_src = getattr(W, "copy_src", []) + [i]
+                snaps = [M.snap(o) for o in W.everything()]
+                continue
             cp, exc, imp = M.call(copy.deepcopy, pool[i])
             if exc is not None:
                 mu.fail("deepcopy-raises:%s" % M.kind(pool[i]), "deepcopy raised %r" % exc)
